@@ -151,6 +151,7 @@ class Interp:
         self.objs: Dict[int, Obj] = {}
         self.closures: Dict[int, Closure] = {}
         self._seq = 0
+        self._atomic_cache: Dict[int, bool] = {}
         self._stack: List[str] = []
         self.notes: List[str] = []
         self.top = Frame(func, None, func.qualname)
@@ -161,6 +162,15 @@ class Interp:
         self.returns = self.top.returns
 
     # ------------------------------------------------------------------ helpers
+    def atomic_closure(self, c: "Closure") -> bool:
+        """Closures that loop until a condition holds (while) are not usefully evaluated in line: their calls stay atomic
+        ('call' events with callee ('lam', id)) and rules analyse their bodies separately."""
+        if c.id in self._atomic_cache:
+            return self._atomic_cache[c.id]
+        r = not isinstance(c.node, ast.Lambda) and any(isinstance(n, ast.While) for n in walk_no_nested(c.node))
+        self._atomic_cache[c.id] = r
+        return r
+
     def _event(self, kind, term, value, st: _State, node, frame: Frame) -> Event:
         self._seq += 1
         e = Event(self._seq, kind, term, value, st.conds, st.loops, node, frame.qual, self._call_depth)
@@ -397,7 +407,7 @@ class Interp:
             return list(it[1])
         if it[0] == "obj":
             o = self.objs[it[1]]
-            if o.kind == "list" and not self._mutated(it):
+            if o.kind == "list" and isinstance(o.node, ast.List) and not self._mutated(it):
                 return list(o.init)
         return None
 
@@ -701,9 +711,41 @@ class Interp:
             if lp.domain is not None and (lp.domain == base or (lp.domain[0] == "tuple" and base in lp.domain[1])):
                 return ("elem", base, lp.id)
             if lp.range is not None and lp.range[0] == const(0) and lp.range[2] == const(1) \
-                    and lp.range[1] == ("call", ("name", "len"), (base,), ()):
+                    and lp.range[1][0] == "call" and lp.range[1][1] == ("name", "len") and len(lp.range[1][2]) == 1 \
+                    and self.same_length(lp.range[1][2][0], base):
                 return ("elem", base, lp.id)
         return ("sub", base, idx)
+
+    def length_root(self, x: Term) -> Term:
+        """The sequence whose length x provably shares: [e for v in y] (one generator, no condition) has len(y)."""
+        seen = 0
+        while x[0] == "obj" and seen < 8:
+            seen += 1
+            o = self.objs[x[1]]
+            if o.kind in ("listcomp", "genexp", "setcomp"):
+                if o.kind == "setcomp":
+                    break
+                evs = [e for e in self.events if e.kind == "elem" and e.term == x]
+                if len(evs) != 1:
+                    break
+                lps = [L for L in evs[0].loops if L not in o.loops]
+                if len(lps) != 1 or evs[0].conds != o.conds or self.loops[lps[0]].iter is None:
+                    break
+                lp = self.loops[lps[0]]
+                nxt = lp.domain if (lp.domain is not None and lp.domain[0] != "tuple") else lp.iter
+                if lp.range is not None:
+                    break
+                x = nxt
+            elif o.kind == "list" and isinstance(o.node, ast.Call) and len(o.init) == 1:
+                x = o.init[0]
+            else:
+                break
+        if x[0] == "call" and x[1] in (("name", "list"), ("name", "tuple")) and len(x[2]) == 1 and not x[3]:
+            return self.length_root(x[2][0])
+        return x
+
+    def same_length(self, a: Term, b: Term) -> bool:
+        return a == b or self.length_root(a) == self.length_root(b)
 
     def _comp(self, n, frame: Frame, st: _State) -> Term:
         kind = {ast.ListComp: "listcomp", ast.SetComp: "setcomp", ast.GeneratorExp: "genexp", ast.DictComp: "dictcomp"}[type(n)]
@@ -764,9 +806,11 @@ class Interp:
         # closures / lambdas
         if f[0] == "lam" and simple and self._call_depth < self.MAX_DEPTH:
             c = self.closures[f[1]]
-            r = self._inline(c.node, c.frame, c.defaults, c.finfo, args, kwargs, st, n, None)
-            if r is not None:
-                return r
+            if not self.atomic_closure(c):
+                r = self._inline(c.node, c.frame, c.defaults, c.finfo, args, kwargs, st, n, None)
+                if r is not None:
+                    self._event("inline", ("call", f, args, kwargs), r, st, n, frame)
+                    return r
         # package functions that are not part of the reference vocabulary
         if simple and frame.func is not None and self._call_depth < self.MAX_DEPTH:
             tgt, self_term = self._resolve(n, f, frame)
@@ -775,6 +819,7 @@ class Interp:
                 given_args = ((self_term,) + args) if self_term is not None else args
                 r = self._inline(tgt.node, None, self._module_defaults(tgt), tgt, given_args, kwargs, st, n, tgt)
                 if r is not None:
+                    self._event("inline", ("call", ("name", tgt.qualname), given_args, kwargs), r, st, n, frame)
                     return r
         if f[0] == "name" and f[1] in _CONSTRUCTORS:
             obj = self._new_obj(f[1], args + tuple(("tuple", (const(k), v)) for k, v in kwargs), n, st)
